@@ -1,9 +1,10 @@
 //go:build verif
 
 // c05: every way a request can fail x route family x stream flag x engine through the unchanged
-// production stack. One fresh stack per scenario; the client is a raw socket with a 2 s wall-clock
-// bound; what is recorded is the status, Content-Type and body the client saw, how long it took,
-// and which backends were contacted.
+// production stack. One fresh stack per scenario (kind c05), and the same scenarios again as requests
+// of histories on long-lived stacks (kind c05hist, hist.go); the client is a raw socket with a 2 s
+// wall-clock bound; what is recorded is the status, Content-Type and body the client saw, how long it
+// took, and which backends were contacted.
 package main
 
 import (
@@ -14,6 +15,8 @@ import (
 	"encoding/json"
 	"fmt"
 	"os"
+	"runtime"
+	"runtime/debug"
 	"sort"
 	"sync"
 	"time"
@@ -44,6 +47,11 @@ type Scenario struct {
 	// HalfOpen (olla engine): every endpoint's breaker was opened by a history of failed exchanges and its window has
 	// elapsed, so the judged request is the recovery probe
 	HalfOpen bool `json:"half_open,omitempty"`
+	// OK: what a well-formed OpenAI-dialect completion of the backend carries: "" three short text pieces | "tools" a tool
+	// call | "long" one text piece of ~108 KiB (a single SSE line longer than any initial line buffer)
+	OK string `json:"ok_shape,omitempty"`
+	// Down: endpoints (by index) that are offline in the repository when the request arrives (histories only)
+	Down []int `json:"down,omitempty"`
 }
 
 type Obs struct {
@@ -63,6 +71,7 @@ type Obs struct {
 	Shapes    []string `json:"shapes"`      // anthropic | openai | other
 	SentHex   string   `json:"sent_hex"`    // response body the (last contacted) backend was scripted to send
 	SentCT    string   `json:"sent_ct"`
+	Answered  bool     `json:"answered,omitempty"` // a backend was scripted to answer this request (with SentHex, which may be empty)
 	Offline   []string `json:"offline"`     // repository status offline after the request
 }
 
@@ -81,30 +90,55 @@ func backendErrBody(kind string, status int) ([]byte, string) {
 	return b, "application/json"
 }
 
-func run(sc *Scenario) *Obs {
-	obs := &Obs{}
-	typ := "openai"
-	if sc.Route == "anthropic-pt" {
-		typ = "vllm"
+// sentRec: what the (last contacted) backend was scripted to send for one request, found by the request's X-Verif-Token.
+type sentRec struct {
+	body     []byte
+	ct       string
+	answered bool
+}
+
+// rig is one production stack in front of its scripted backends. The single-request scenarios build one per case;
+// a history (hist.go) keeps one for its whole length.
+type rig struct {
+	s      *stack.Stack
+	bes    []*stack.Backend
+	engine string
+	typ    string
+	smu    sync.Mutex
+	sent   map[string]sentRec
+	fails  int // upper bound of the failed round trips in a row any endpoint's engine breaker may have counted
+}
+
+func token(sn *stack.Seen) string {
+	if sn != nil {
+		if v := sn.Header["X-Verif-Token"]; len(v) > 0 {
+			return v[0]
+		}
 	}
-	var bes []*stack.Backend
+	return ""
+}
+
+func (g *rig) record(sn *stack.Seen, body []byte, ct string) {
+	g.smu.Lock()
+	g.sent[token(sn)] = sentRec{body: body, ct: ct, answered: true}
+	g.smu.Unlock()
+}
+
+// newRig starts the stack: n endpoints of the given platform type with falling priorities.
+func newRig(engine, typ string, n int, vary uint64, strategy string) (*rig, string) {
+	g := &rig{engine: engine, typ: typ, sent: map[string]sentRec{}}
 	var eps []stack.EP
-	for i := 0; i < sc.N; i++ {
+	for i := 0; i < n; i++ {
 		b := stack.NewBackend(string(rune('A' + i)))
 		b.Listing = anth.OpenAIListing([]string{anth.Model, "other"})
-		bes = append(bes, b)
+		g.bes = append(g.bes, b)
 		eps = append(eps, stack.EP{Name: b.Name, Type: typ, Priority: 300 - 100*i, Backend: b})
 	}
-	defer func() {
-		for _, b := range bes {
-			b.Close()
-		}
-	}()
-	s, err := stack.Start(stack.Opts{Vary: stack.VaryForJSON("c05", sc), Engine: sc.Engine, Balancer: "priority", EPs: eps, ModelDiscovery: true, Mutate: func(cfg *config.Config) {
+	s, err := stack.Start(stack.Opts{Vary: vary, Engine: engine, Balancer: "priority", EPs: eps, ModelDiscovery: true, Mutate: func(cfg *config.Config) {
 		cfg.Discovery.ModelDiscovery.Interval = time.Hour
 		cfg.Translators.Anthropic.Enabled = true
 		cfg.Translators.Anthropic.PassthroughEnabled = true
-		if typ, fb, ok := strings.Cut(sc.Strategy, "-"); ok {
+		if typ, fb, ok := strings.Cut(strategy, "-"); ok {
 			cfg.ModelRegistry.RoutingStrategy.Type = typ
 			cfg.ModelRegistry.RoutingStrategy.Options.FallbackBehavior = fb
 			cfg.ModelRegistry.RoutingStrategy.Options.DiscoveryRefreshOnMiss = typ == "discovery"
@@ -112,45 +146,123 @@ func run(sc *Scenario) *Obs {
 		}
 	}})
 	if err != nil {
-		obs.StartErr = err.Error()
-		return obs
+		g.close()
+		return nil, err.Error()
 	}
-	defer s.Stop()
-	if !anth.WaitCatalogued(s, bes, 2) {
-		obs.StartErr = "model catalogue did not settle"
-		return obs
+	g.s = s
+	if !anth.WaitCatalogued(s, g.bes, 2) {
+		g.close()
+		return nil, "model catalogue did not settle"
 	}
-	if sc.HalfOpen {
-		if svc, ok := s.Proxy.(*olla.Service); ok {
-			for i, b := range bes {
-				for j, o := range bes { // isolate endpoint i
-					st := domain.StatusOffline
-					if j == i {
-						st = domain.StatusHealthy
-					}
-					s.SetStatus(o.Name, st)
+	return g, ""
+}
+
+func (g *rig) close() {
+	if g.s != nil {
+		g.s.Stop()
+	}
+	for _, b := range g.bes {
+		b.Close()
+	}
+}
+
+// halfOpen (olla engine): every endpoint's breaker is opened by a history of failed exchanges and its window elapses.
+func (g *rig) halfOpen() {
+	s, bes := g.s, g.bes
+	if svc, ok := s.Proxy.(*olla.Service); ok {
+		for i, b := range bes {
+			for j, o := range bes { // isolate endpoint i
+				st := domain.StatusOffline
+				if j == i {
+					st = domain.StatusHealthy
 				}
-				b.SetBehaviour(stack.Behaviour{Kind: "close0"})
-				for k := 0; k < 12; k++ {
-					before := b.Count()
-					stack.Do(s.Addr, stack.Request("POST", "/olla/proxy/v1/chat/completions", s.Addr, [][2]string{{"Content-Type", "application/json"}}, []byte(`{"prime":true}`), false), 2*time.Second)
-					s.SetStatus(b.Name, domain.StatusHealthy)
-					if b.Count() == before {
-						break // the breaker no longer lets anything through: it is open
-					}
+				s.SetStatus(o.Name, st)
+			}
+			b.SetBehaviour(stack.Behaviour{Kind: "close0"})
+			for k := 0; k < 12; k++ {
+				before := b.Count()
+				stack.Do(s.Addr, stack.Request("POST", "/olla/proxy/v1/chat/completions", s.Addr, [][2]string{{"Content-Type", "application/json"}}, []byte(`{"prime":true}`), false), 2*time.Second)
+				s.SetStatus(b.Name, domain.StatusHealthy)
+				if b.Count() == before {
+					break // the breaker no longer lets anything through: it is open
 				}
-				b.Taken()
-				olla.VerifRewindEndpointBreaker(svc, b.Name, 31*time.Second)
 			}
-			for _, o := range bes {
-				s.SetStatus(o.Name, domain.StatusHealthy)
-			}
+			b.Taken()
+			olla.VerifRewindEndpointBreaker(svc, b.Name, 31*time.Second)
+		}
+		for _, o := range bes {
+			s.SetStatus(o.Name, domain.StatusHealthy)
 		}
 	}
-	var sent []byte
-	var sentCT string
-	var smu sync.Mutex
-	for i, b := range bes {
+}
+
+func malformedBody(shape string, stream bool) ([]byte, string) {
+	ct := "application/json"
+	if stream {
+		ct = "text/event-stream"
+	}
+	body := []byte(`{"id":"chatcmpl-1","choices":[{"index":0,"message":{"role":"assist`)
+	switch shape { // well-formed JSON of the wrong shape (or no JSON at all), answered with 200
+	case "emptyobj":
+		body = []byte(`{}`)
+	case "nochoices":
+		body = []byte(`{"id":"chatcmpl-1","object":"chat.completion","choices":[]}`)
+	case "error200":
+		body = []byte(`{"error":{"message":"model overloaded","type":"server_error"}}`)
+	case "legacy":
+		body = []byte(`{"id":"cmpl-1","object":"text_completion","choices":[{"index":0,"text":"hello","finish_reason":"stop"}]}`)
+	case "completion": // a complete non-streamed chat completion, whatever was asked for (a backend that ignores "stream")
+		body, ct = anth.OpenAICompletion("Z"), "application/json"
+	case "html": // the page of a gateway in front of the backend, served with 200
+		body, ct = []byte("<html>\n<head><title>Bad Gateway</title></head>\n<body>\n<h1>upstream unavailable</h1>\n<p>data source: none</p>\n</body>\n</html>\n"), "text/html; charset=utf-8"
+	case "empty": // 200 and no body at all
+		body = []byte{}
+	}
+	return body, ct
+}
+
+// okAnswer: the well-formed 200 answer of a healthy backend; `shape` varies what an OpenAI-dialect completion carries
+// ("" = three short text pieces, "tools" = a tool call, "long" = one text piece far longer than any line buffer).
+func okAnswer(name string, sn *stack.Seen, shape string) stack.Behaviour {
+	bh := anth.OKAnswer(name, sn)
+	if shape == "" || strings.HasSuffix(sn.Path, "/v1/messages") {
+		return bh
+	}
+	stream := anth.WantsStream(sn.Body)
+	js := func(v any) string { b, _ := json.Marshal(v); return string(b) }
+	chunk := func(delta map[string]any, finish any) string {
+		return "data: " + js(map[string]any{"id": "chatcmpl-2", "object": "chat.completion.chunk", "model": anth.Model,
+			"choices": []any{map[string]any{"index": 0, "delta": delta, "finish_reason": finish}}}) + "\n\n"
+	}
+	switch shape {
+	case "tools":
+		if stream {
+			bh.Body = []byte(chunk(map[string]any{"role": "assistant", "tool_calls": []any{map[string]any{"index": 0, "id": "call_" + name, "type": "function", "function": map[string]any{"name": "get_weather", "arguments": ""}}}}, nil) +
+				chunk(map[string]any{"tool_calls": []any{map[string]any{"index": 0, "function": map[string]any{"arguments": `{"city":`}}}}, nil) +
+				chunk(map[string]any{"tool_calls": []any{map[string]any{"index": 0, "function": map[string]any{"arguments": `"Oslo"}`}}}}, nil) +
+				chunk(map[string]any{}, "tool_calls") + "data: [DONE]\n\n")
+		} else {
+			bh.Body = []byte(js(map[string]any{"id": "chatcmpl-2", "object": "chat.completion", "model": anth.Model,
+				"choices": []any{map[string]any{"index": 0, "finish_reason": "tool_calls", "message": map[string]any{"role": "assistant", "content": nil,
+					"tool_calls": []any{map[string]any{"id": "call_" + name, "type": "function", "function": map[string]any{"name": "get_weather", "arguments": `{"city":"Oslo"}`}}}}}},
+				"usage": map[string]any{"prompt_tokens": 5, "completion_tokens": 9, "total_tokens": 14}}))
+		}
+	case "long":
+		text := strings.Repeat("lorem ipsum dolor sit amet ", 4000) + name // ~108 KiB in one piece
+		if stream {
+			bh.Body = []byte(chunk(map[string]any{"role": "assistant", "content": text}, nil) + chunk(map[string]any{}, "stop") + "data: [DONE]\n\n")
+		} else {
+			bh.Body = []byte(js(map[string]any{"id": "chatcmpl-2", "object": "chat.completion", "model": anth.Model,
+				"choices": []any{map[string]any{"index": 0, "finish_reason": "stop", "message": map[string]any{"role": "assistant", "content": text}}},
+				"usage":   map[string]any{"prompt_tokens": 5, "completion_tokens": 9000, "total_tokens": 9005}}))
+		}
+	}
+	return bh
+}
+
+// configure scripts the backends (and, for no-endpoints / down, the repository) for the scenario's fault.
+func (g *rig) configure(sc *Scenario) {
+	for i, b := range g.bes {
 		name := b.Name
 		kind := sc.Fault
 		if kind == "mixed" {
@@ -167,10 +279,8 @@ func run(sc *Scenario) *Obs {
 			}
 		case "b4xx", "b5xx":
 			body, ct := backendErrBody(sc.ErrBody, sc.Status)
-			b.SetScript(func(int, *stack.Seen) stack.Behaviour {
-				smu.Lock()
-				sent, sentCT = body, ct
-				smu.Unlock()
+			b.SetScript(func(_ int, sn *stack.Seen) stack.Behaviour {
+				g.record(sn, body, ct)
 				bh := stack.Behaviour{Kind: "ok", Status: sc.Status, Headers: [][2]string{{"Content-Type", ct}, {"X-Backend", name}}, Body: body}
 				if sc.SlowMs > 0 {
 					gate := make(chan struct{})
@@ -181,52 +291,40 @@ func run(sc *Scenario) *Obs {
 			})
 		case "malformed":
 			b.SetScript(func(_ int, sn *stack.Seen) stack.Behaviour {
-				ct := "application/json"
-				if anth.WantsStream(sn.Body) {
-					ct = "text/event-stream"
-				}
-				body := []byte(`{"id":"chatcmpl-1","choices":[{"index":0,"message":{"role":"assist`)
-				switch sc.ErrBody { // well-formed JSON of the wrong shape, answered with 200
-				case "emptyobj":
-					body = []byte(`{}`)
-				case "nochoices":
-					body = []byte(`{"id":"chatcmpl-1","object":"chat.completion","choices":[]}`)
-				case "error200":
-					body = []byte(`{"error":{"message":"model overloaded","type":"server_error"}}`)
-				case "legacy":
-					body = []byte(`{"id":"cmpl-1","object":"text_completion","choices":[{"index":0,"text":"hello","finish_reason":"stop"}]}`)
-				}
-				smu.Lock()
-				sent, sentCT = body, ct
-				smu.Unlock()
+				body, ct := malformedBody(sc.ErrBody, anth.WantsStream(sn.Body))
+				g.record(sn, body, ct)
 				return stack.Behaviour{Kind: "ok", Status: 200, Headers: [][2]string{{"Content-Type", ct}, {"X-Backend", name}}, Body: body}
 			})
 		case "body-reset":
 			b.SetScript(func(_ int, sn *stack.Seen) stack.Behaviour {
-				bh := anth.OKAnswer(name, sn)
+				bh := okAnswer(name, sn, sc.OK)
 				bh.Kind = "body-reset"
 				bh.Chunked = false
 				bh.K = len(bh.Body) / 2
-				smu.Lock()
-				sent, sentCT = bh.Body, bh.Headers[0][1]
-				smu.Unlock()
+				g.record(sn, bh.Body, bh.Headers[0][1])
 				return bh
 			})
 		default: // none, no-endpoints, unknown-model, bad-request: a healthy backend
 			b.SetScript(func(_ int, sn *stack.Seen) stack.Behaviour {
-				bh := anth.OKAnswer(name, sn)
-				smu.Lock()
-				sent, sentCT = bh.Body, bh.Headers[0][1]
-				smu.Unlock()
+				bh := okAnswer(name, sn, sc.OK)
+				g.record(sn, bh.Body, bh.Headers[0][1])
 				return bh
 			})
 		}
 	}
 	if sc.Fault == "no-endpoints" {
-		for _, b := range bes {
-			s.SetStatus(b.Name, domain.StatusOffline)
+		for _, b := range g.bes {
+			g.s.SetStatus(b.Name, domain.StatusOffline)
 		}
 	}
+	for _, i := range sc.Down {
+		if i < len(g.bes) {
+			g.s.SetStatus(g.bes[i].Name, domain.StatusOffline)
+		}
+	}
+}
+
+func requestOf(sc *Scenario, addr string) []byte {
 	model := anth.Model
 	if sc.Fault == "unknown-model" {
 		model = "no-such-model"
@@ -246,58 +344,94 @@ func run(sc *Scenario) *Obs {
 		// on the OpenAI routes Olla does not validate, the backend answers
 		body = []byte(fmt.Sprintf(`{"model":%q,"stream":%v,"messages":[]}`, model, sc.Stream))
 	}
-	raw := stack.Request("POST", path, s.Addr, [][2]string{{"Content-Type", "application/json"}, {"anthropic-version", "2023-06-01"}, {"X-Verif-Token", sc.Salt}}, body, false)
-	r := stack.Do(s.Addr, raw, 2*time.Second+time.Duration(sc.SlowMs)*time.Millisecond) // the wall-clock bound of the property (after the backend's own delay)
-	obs.Err, obs.Status, obs.Ms = r.Err, r.Status, r.Ms
-	obs.CT = anth.Header1(r, "Content-Type")
-	obs.Mode = anth.Header1(r, "X-Olla-Mode")
-	obs.BodyLen = len(r.Body)
-	clientBody := r.Body
+	return stack.Request("POST", path, addr, [][2]string{{"Content-Type", "application/json"}, {"anthropic-version", "2023-06-01"}, {"X-Verif-Token", sc.Salt}}, body, false)
+}
+
+// send: one client, a raw socket, bounded by the wall-clock bound of the property (after the backend's own delay).
+func (g *rig) send(sc *Scenario) *stack.Resp {
+	return stack.Do(g.s.Addr, requestOf(sc, g.s.Addr), 2*time.Second+time.Duration(sc.SlowMs)*time.Millisecond)
+}
+
+// collect turns the answers of the requests that were just made (one, or several that ran at once) into observations.
+func (g *rig) collect(scs []*Scenario, rs []*stack.Resp) []*Obs {
 	time.Sleep(20 * time.Millisecond)
-	var all []*stack.Seen
-	for _, b := range bes {
-		for _, x := range b.Taken() {
-			if v := x.Header["X-Verif-Token"]; len(v) > 0 && v[0] == sc.Salt { // only this scenario's traffic
-				all = append(all, x)
-			}
-		}
+	var seen []*stack.Seen
+	for _, b := range g.bes {
+		seen = append(seen, b.Taken()...)
 	}
-	sort.Slice(all, func(i, j int) bool { return all[i].Seq < all[j].Seq })
-	for _, x := range all {
-		obs.Contacted = append(obs.Contacted, x.Backend)
-		obs.Paths = append(obs.Paths, x.Path)
-		obs.Shapes = append(obs.Shapes, anth.Shape(x.Body))
-	}
-	smu.Lock()
-	sentCopy := append([]byte(nil), sent...)
-	obs.SentCT = sentCT
-	smu.Unlock()
-	if len(clientBody) > 1<<20 || len(sentCopy) > 1<<20 {
-		switch {
-		case bytes.Equal(clientBody, sentCopy):
-			obs.BigClass = "equal"
-		case len(clientBody) > 0 && bytes.HasPrefix(sentCopy, clientBody):
-			obs.BigClass = "prefix"
-		default:
-			obs.BigClass = "other"
-		}
-		head := func(b []byte) []byte {
-			if len(b) > 2048 {
-				return b[:2048]
-			}
-			return b
-		}
-		obs.BodyHex, obs.SentHex = hex.EncodeToString(head(clientBody)), hex.EncodeToString(head(sentCopy))
-	} else {
-		obs.BodyHex, obs.SentHex = hex.EncodeToString(clientBody), hex.EncodeToString(sentCopy)
-	}
-	for n, st := range s.Statuses() {
+	sort.Slice(seen, func(i, j int) bool { return seen[i].Seq < seen[j].Seq })
+	var offline []string
+	for n, st := range g.s.Statuses() {
 		if st == "offline" {
-			obs.Offline = append(obs.Offline, n)
+			offline = append(offline, n)
 		}
 	}
-	sort.Strings(obs.Offline)
-	return obs
+	sort.Strings(offline)
+	out := make([]*Obs, len(scs))
+	for k, sc := range scs {
+		r := rs[k]
+		obs := &Obs{}
+		obs.Err, obs.Status, obs.Ms = r.Err, r.Status, r.Ms
+		obs.CT = anth.Header1(r, "Content-Type")
+		obs.Mode = anth.Header1(r, "X-Olla-Mode")
+		obs.BodyLen = len(r.Body)
+		clientBody := r.Body
+		for _, x := range seen {
+			if token(x) == sc.Salt { // only this scenario's traffic
+				obs.Contacted = append(obs.Contacted, x.Backend)
+				obs.Paths = append(obs.Paths, x.Path)
+				obs.Shapes = append(obs.Shapes, anth.Shape(x.Body))
+			}
+		}
+		g.smu.Lock()
+		rec := g.sent[sc.Salt]
+		delete(g.sent, sc.Salt)
+		g.smu.Unlock()
+		sentCopy := append([]byte(nil), rec.body...)
+		obs.SentCT = rec.ct
+		obs.Answered = rec.answered
+		if len(clientBody) > 1<<20 || len(sentCopy) > 1<<20 {
+			switch {
+			case bytes.Equal(clientBody, sentCopy):
+				obs.BigClass = "equal"
+			case len(clientBody) > 0 && bytes.HasPrefix(sentCopy, clientBody):
+				obs.BigClass = "prefix"
+			default:
+				obs.BigClass = "other"
+			}
+			head := func(b []byte) []byte {
+				if len(b) > 2048 {
+					return b[:2048]
+				}
+				return b
+			}
+			obs.BodyHex, obs.SentHex = hex.EncodeToString(head(clientBody)), hex.EncodeToString(head(sentCopy))
+		} else {
+			obs.BodyHex, obs.SentHex = hex.EncodeToString(clientBody), hex.EncodeToString(sentCopy)
+		}
+		obs.Offline = offline
+		out[k] = obs
+	}
+	return out
+}
+
+// run: one scenario on a fresh stack.
+func run(sc *Scenario) *Obs {
+	typ := "openai"
+	if sc.Route == "anthropic-pt" {
+		typ = "vllm"
+	}
+	g, serr := newRig(sc.Engine, typ, sc.N, stack.VaryForJSON("c05", sc), sc.Strategy)
+	if g == nil {
+		return &Obs{StartErr: serr}
+	}
+	defer g.close()
+	if sc.HalfOpen {
+		g.halfOpen()
+	}
+	g.configure(sc)
+	r := g.send(sc)
+	return g.collect([]*Scenario{sc}, []*stack.Resp{r})[0]
 }
 
 func main() {
@@ -364,8 +498,15 @@ func main() {
 						add(Scenario{Fault: "close0", Route: route, Stream: stream, Engine: engine, N: 1, Status: 200, SlowMs: 16500})
 						add(Scenario{Fault: "b5xx", Route: route, Stream: stream, Engine: engine, N: 1, Status: 503, ErrBody: "json", SlowMs: 16500})
 					}
-					for _, shape := range []string{"emptyobj", "nochoices", "error200", "legacy"} {
+					shapes := []string{"emptyobj", "nochoices", "error200", "legacy", "completion", "html"}
+					if route == "anthropic" {
+						shapes = append(shapes, "empty") // 200 and no body: only where Olla has to make the answer out of it
+					}
+					for _, shape := range shapes {
 						add(Scenario{Fault: "malformed", Route: route, Stream: stream, Engine: engine, N: 1, Status: 200, ErrBody: shape})
+					}
+					for _, ok := range []string{"tools", "long"} { // other well-formed answers: a tool call, one very long line
+						add(Scenario{Fault: "none", Route: route, Stream: stream, Engine: engine, N: 1, Status: 200, OK: ok})
 					}
 					add(Scenario{Fault: "b5xx", Route: route, Stream: stream, Engine: engine, N: 1, Status: 500, ErrBody: "big"})
 					add(Scenario{Fault: "b4xx", Route: route, Stream: stream, Engine: engine, N: 1, Status: 429, ErrBody: "big"})
@@ -382,8 +523,41 @@ func main() {
 			}
 		}
 	}
+	// histories: long-lived stacks taken through sequences of different scenarios (hist.go)
+	var hists []*History
+	if vlib.ReplayPath() == "" {
+		hr := r.Fork()
+		id := 0
+		per, passes := 2, 1
+		if tier == "thorough" {
+			per, passes = 3, 2
+		}
+		for _, engine := range []string{"sherpa", "olla"} {
+			for _, typ := range []string{"openai", "vllm"} {
+				for k := 0; k < per; k++ {
+					n := 2
+					if k > 0 {
+						n = 1 + hr.Intn(3)
+					}
+					hists = append(hists, genHistory(hr.Fork(), id, engine, typ, n, passes, tier))
+					id++
+				}
+			}
+		}
+	}
+	histGCs, histSecs := 0, 0.0
 	out := make([]*Obs, len(scs))
-	scen.ParallelMap(len(scs), 16, func(i int) {
+	hout := make([][]map[string]any, len(hists))
+	// the histories first, together with the scenarios that spend their time waiting for a slow backend; then the rest
+	var first, rest []int
+	for i, sc := range scs {
+		if sc.SlowMs > 0 {
+			first = append(first, i)
+		} else {
+			rest = append(rest, i)
+		}
+	}
+	runOne := func(i int) {
 		defer func() {
 			if p := recover(); p != nil {
 				out[i] = &Obs{StartErr: fmt.Sprint("panic: ", p)}
@@ -396,10 +570,49 @@ func main() {
 				break
 			}
 		}
-	})
+	}
+	// While the histories run the process looks like a long-lived proxy on a small machine: one P and a collector that
+	// only runs when the heap has grown a lot (or when a history asks for it). sync.Pool hands an object back only on the
+	// P that released it and forgets everything after two collections, so on 16 Ps under the allocation rate of 700
+	// stacks coming and going, what one request left in a pooled object would rarely meet the next request.
+	if len(hists) > 0 {
+		procs := runtime.GOMAXPROCS(1)
+		var ms0, ms1 runtime.MemStats
+		runtime.ReadMemStats(&ms0)
+		t0 := time.Now()
+		var hmu sync.Mutex
+		gcp := debug.SetGCPercent(-1)
+		lim := debug.SetMemoryLimit(1536 << 20)
+		scen.ParallelMap(len(hists)+len(first), len(hists)+len(first), func(i int) {
+			if i < len(hists) {
+				hout[i] = runHistory(hists[i])
+				hmu.Lock()
+				if d := time.Since(t0).Seconds(); d > histSecs {
+					histSecs = d
+				}
+				hmu.Unlock()
+			} else {
+				runOne(first[i-len(hists)])
+			}
+		})
+		runtime.ReadMemStats(&ms1)
+		histGCs = int(ms1.NumGC - ms0.NumGC)
+		debug.SetMemoryLimit(lim)
+		debug.SetGCPercent(gcp)
+		runtime.GOMAXPROCS(procs)
+	} else {
+		rest = append(first, rest...)
+	}
+	scen.ParallelMap(len(rest), 16, func(i int) { runOne(rest[i]) })
 	for i, sc := range scs {
 		c.Count(sc.Engine + "." + sc.Route + "." + sc.Fault)
 		c.Emit(map[string]any{"kind": "c05", "scenario": sc, "impl": out[i]})
 	}
-	c.Close(map[string]any{"exhaustive": true, "exhaustive_note": "fault {refuse, reset0, close0, garbage, mixed, no-endpoints, unknown-model, malformed, backend 4xx x{400,404,429}, backend 5xx x{500,503} (json and text error bodies), none, bad-request, body-reset} x route {proxy, provider, anthropic translation, anthropic passthrough} x stream x engine {sherpa, olla}, 1 and 2 endpoints for the failure kinds (more statuses and n=2 everywhere in thorough)"})
+	for i, h := range hists {
+		for _, m := range hout[i] {
+			c.Count("history." + h.Engine + "." + h.Type)
+			c.Emit(m)
+		}
+	}
+	c.Close(map[string]any{"histories": len(hists), "gc_cycles_while_histories_ran": histGCs, "histories_seconds": histSecs, "exhaustive": true, "exhaustive_note": "fault {refuse, reset0, close0, garbage, mixed, no-endpoints, unknown-model, malformed, backend 4xx x{400,404,429}, backend 5xx x{500,503} (json and text error bodies), none, bad-request, body-reset} x route {proxy, provider, anthropic translation, anthropic passthrough} x stream x engine {sherpa, olla}, 1 and 2 endpoints for the failure kinds (more statuses and n=2 everywhere in thorough); the histories (kind c05hist) are sampled: every such scenario at least once per long-lived stack, in a seeded random order"})
 }
